@@ -95,8 +95,12 @@ func isTok(c css3.CV, k css3.Kind) bool { return c.Block == nil && c.Func == nil
 //   - the hostile part must parse to at most one declaration and no at-rule
 //     (-> Declaration); if it is a declaration its name must be admissible
 //     (-> Name); zero declarations (dropped by error recovery) is fine;
-//   - the hostile part is scanned for {}-blocks, functions and url schemes.
-func checkList(in []css3.CV, segs []Seg) (v Clause) {
+//   - the hostile part is scanned for {}-blocks, functions and url schemes;
+//   - segs gives the expected order for ordered sinks (css component, KV pairs,
+//     slices, separate style arguments); with unordered=true (entries of one
+//     map) only the multiset is demanded: the sentinels, each intact, plus
+//     exactly one part for the pair under test, in any order.
+func checkList(in []css3.CV, segs []Seg, unordered bool) (v Clause) {
 	var parts [][]css3.CV
 	cur := []css3.CV{}
 	for _, c := range in {
@@ -117,11 +121,48 @@ func checkList(in []css3.CV, segs []Seg) (v Clause) {
 	if len(parts) != len(segs) {
 		return Declaration
 	}
+	isSentinel := func(part []css3.CV, sg Seg) bool {
+		items := css3.ParseDeclarationList(part)
+		return len(items) == 1 && items[0].Decl != nil && items[0].Decl.Name == sg.Name && len(items[0].Decl.Value) == 1 &&
+			items[0].Decl.Value[0].Block == nil && items[0].Decl.Value[0].Func == nil && items[0].Decl.Value[0].Tok.Value == sg.Val
+	}
+	if unordered {
+		// The declarations of one Go map have no order the property could speak
+		// about: every sentinel must be found intact among the parts (each part
+		// used once), in any position; what remains is the hostile part. The
+		// parts are then put into the order of segs and judged as below.
+		used := make([]bool, len(parts))
+		perm := make([][]css3.CV, len(segs))
+		for i, sg := range segs {
+			if !sg.Sentinel {
+				continue
+			}
+			for k := range parts {
+				if !used[k] && isSentinel(parts[k], sg) {
+					used[k], perm[i] = true, parts[k]
+					break
+				}
+			}
+			if perm[i] == nil {
+				return Declaration // a neighbour declaration is missing or damaged
+			}
+		}
+		k := 0
+		for i, sg := range segs {
+			if sg.Sentinel {
+				continue
+			}
+			for used[k] {
+				k++
+			}
+			used[k], perm[i] = true, parts[k]
+		}
+		parts = perm
+	}
 	for i, sg := range segs {
 		items := css3.ParseDeclarationList(parts[i])
 		if sg.Sentinel {
-			if len(items) != 1 || items[0].Decl == nil || items[0].Decl.Name != sg.Name || len(items[0].Decl.Value) != 1 ||
-				items[0].Decl.Value[0].Block != nil || items[0].Decl.Value[0].Func != nil || items[0].Decl.Value[0].Tok.Value != sg.Val {
+			if !isSentinel(parts[i], sg) {
 				v |= Declaration
 			}
 			continue
@@ -167,21 +208,21 @@ func checkSheet(sheet, cls0, cls1 string, segs []Seg) (v Clause) {
 			isTok(ru.Prelude[1], css3.Ident) && strings.HasPrefix(ru.Prelude[1].Tok.Value, prefix)
 	}
 	if len(rules) != 2 || !okRule(rules[0], cls0) || !okRule(rules[1], cls1) ||
-		checkList(rules[1].Block.Values, []Seg{sent("color", "green")}) != 0 {
+		checkList(rules[1].Block.Values, []Seg{sent("color", "green")}, false) != 0 {
 		return v | Rule
 	}
-	return v | checkList(rules[0].Block.Values, segs)
+	return v | checkList(rules[0].Block.Values, segs, false)
 }
 
 // checkAttr decides the decoded value of a style attribute ("parse a list of
 // declarations" over the whole value). There is no rule to end, so a '}' is an
 // ordinary token here.
-func checkAttr(text string, segs []Seg) (v Clause) {
+func checkAttr(text string, segs []Seg, unordered bool) (v Clause) {
 	r := css3.Tokenize(text)
 	if r.Comments > 0 {
 		v |= Comment
 	}
-	return v | checkList(css3.ParseComponentValues(r.Tokens), segs)
+	return v | checkList(css3.ParseComponentValues(r.Tokens), segs, unordered)
 }
 
 func hasStyleEnd(s string) bool { return strings.Contains(strings.ToLower(s), "</style") }
